@@ -1076,8 +1076,13 @@ impl<'a, 'b, W: Write> Serializer for &'a mut YamlSerializer<'b, W> {
             let first_line_spaces = crate::wrapping::first_line_leading_spaces(content_trimmed);
             let needs_indicator = first_line_spaces > 0;
 
+            // A block scalar cannot carry control characters other than tab and line feed: CR and
+            // NEL would be read as line breaks, NUL ends the scalar, the others are not printable.
+            let has_unrepresentable_char =
+                v.chars().any(|c| c.is_control() && c != '\n' && c != '\t');
+
             // If N > 9, YAML parsers reject it. Fall back to quoting.
-            if needs_indicator && indent_n > 9 {
+            if has_unrepresentable_char || (needs_indicator && indent_n > 9) {
                 // Reset state and fall through to quoted string handling
                 self.pending_str_style = None;
                 self.pending_str_from_auto = false;
